@@ -293,6 +293,7 @@ func (g *c04GateCol) WriteColumn(w *proto.Writer) {
 	}
 	g.d.WriteColumn(w)
 }
+
 // the external-data column of a selx scenario with a gate: its Prepare is a gate, then fails like ColEnum's own
 type c04PrepCol struct {
 	*proto.ColEnum
@@ -327,14 +328,15 @@ type c04Run struct {
 	lastPkt   int
 	hookSeen  []string
 
-	cancel          context.CancelFunc
-	ctx             context.Context
-	distantDeadline bool // the caller's context also carries a deadline far in the future
-	doErr           error
-	doDone          chan struct{}
-	doWall          time.Duration
-	strict          *bool
-	wakeAfterCancel bool // steered runs: the cancel watch was let past its wake point after the caller's context had ended
+	cancel           context.CancelFunc
+	ctx              context.Context
+	distantDeadline  bool // the caller's context also carries a deadline far in the future
+	doErr            error
+	doDone           chan struct{}
+	doWall           time.Duration
+	strict           *bool
+	wakeAfterCancel  bool // steered runs: the cancel watch was let past its wake point after the caller's context had ended
+	cancelBranchOpen bool // steered runs: the cancel watch entered its cancel branch (hook do.watch.cancel) while the connection was open
 }
 
 var errC04Callback = errors.New("c04: callback failed")
@@ -569,6 +571,11 @@ func (r *c04Run) runPlan(plan []*c04Sx) string {
 				r.wakeAfterCancel = r.conn.cancelled
 				r.conn.mu.Unlock()
 			}
+			if kind == "hcancel" {
+				r.conn.mu.Lock()
+				r.cancelBranchOpen = !r.conn.closed
+				r.conn.mu.Unlock()
+			}
 			rep := c04Reply{n: -1}
 			switch {
 			case act.atom == "cl":
@@ -638,6 +645,7 @@ type c04Obs struct {
 	leaked               int
 	afterCancel          string // tokens written after the caller's cancellation
 	mustCancel           bool   // the cancel watch woke after the caller's context had ended and the server sent no exception
+	cancelNotAttempted   bool   // the watch took its cancel branch on an open connection and no Write of the Cancel packet was attempted
 }
 
 // c04ParseOut decodes the client's byte stream with the library's own decoders; true iff it is a
@@ -711,6 +719,33 @@ func (r *c04Run) observe() c04Obs {
 	}
 	o.closed = r.client.IsClosed()
 	ws := r.conn.phaseWrites(1)
+	// only where nothing but the caller's cancellation ends the query: no write fault, cut, failing callback, exception or
+	// bad packet in the scenario - then nobody closes the client before cancelQuery has written (a sender whose write
+	// failed closes it, and the Cancel write then fails before it reaches the connection)
+	onlyCancel := r.sc.wf < 0 && r.sc.cut < 0 && !r.sc.cwf && !r.sc.cle && (r.sc.kind == "sel" || r.sc.kind == "ins" || r.sc.kind == "str")
+	for _, p := range r.sc.script {
+		switch p.kind {
+		case "info", "prog", "prof", "tc", "data", "tot", "end":
+			if p.cb != "" && p.cb != "ok" {
+				onlyCancel = false
+			}
+		default:
+			onlyCancel = false
+		}
+	}
+	for _, rd := range r.sc.rounds {
+		if rd != "ok" && rd != "eof" && rd != "eoft" {
+			onlyCancel = false
+		}
+	}
+	if r.cancelBranchOpen && onlyCancel {
+		o.cancelNotAttempted = true
+		for _, w := range ws {
+			if w.cancelW {
+				o.cancelNotAttempted = false // written, or tried and failed: best effort was made
+			}
+		}
+	}
 	var tk, ac strings.Builder
 	for _, w := range ws {
 		t := "d"
@@ -854,6 +889,9 @@ func (o c04Obs) oracleC10() string {
 	}
 	if !o.closed {
 		bad = append(bad, "client left open after cancellation")
+	}
+	if o.cancelNotAttempted {
+		bad = append(bad, "the cancel watch took its cancel branch while the connection was open, but no Write of the Cancel packet was even attempted")
 	}
 	nc := strings.Count(o.toks, "c")
 	if strings.Contains(o.toks, "z") {
